@@ -33,7 +33,9 @@ theorem batched_fields_sliced : batchedViolations = [] := by
 /-- `set_const` kernels write derived Model fields; each write to a batched field must use a modulo index or the
     world id with a launch dimension equal to the field's own batch size.  The rows below are the ones whose modulo
     is taken from a DIFFERENT field's batch size (wrong slice / out of bounds if the fields are batched differently)
-    or that index by the raw world id. -/
+    or that index by the raw world id.  (The four cam_*/light_* rows that used cam_pos0's / light_pos0's batch size were
+    repaired in /repo: "fix: set_const indexed cam_poscom0, cam_mat0, light_poscom0 and light_dir0 with another field's
+    batch size"; they would reappear here if the defect returned.) -/
 def setConstSuspicious : List (String × String × String) :=
   ((((rows.filter (fun a => a.modul == setConstModule && a.fclass == .modelBatched && a.rw != .read)).filter
       (fun a => a.idx0 != .wmod a.param)).map (fun a => (a.kernel, a.param, a.idx0))).eraseDups).map
@@ -41,11 +43,7 @@ def setConstSuspicious : List (String × String × String) :=
 
 theorem set_const_write_indices :
     setConstSuspicious =
-      [("set_const._compute_cam_pos0", "cam_mat0_out", "worldid % cam_pos0_out.shape[0]"),
-       ("set_const._compute_cam_pos0", "cam_poscom0_out", "worldid % cam_pos0_out.shape[0]"),
-       ("set_const._compute_light_pos0", "light_dir0_out", "worldid % light_pos0_out.shape[0]"),
-       ("set_const._compute_light_pos0", "light_poscom0_out", "worldid % light_pos0_out.shape[0]"),
-       ("set_const._compute_actuator_acc0", "actuator_acc0_out", "worldid"),
+      [("set_const._compute_actuator_acc0", "actuator_acc0_out", "worldid"),
        ("set_const._set_length_range", "actuator_lengthrange_out", "worldid")] := by
   decide +kernel
 
